@@ -17,7 +17,7 @@ from ..oracle import npyfmt, spectrum as O
 LEVEL = "exploration"
 NEEDS = ["harness", "cli", "shim"]
 RULE = ("writer: shapes with 1-24 axes (mostly length 1, one or two longer with 1-5 digits) chosen so that len(header dict) covers all 64 residues "
-        "mod 64, x value kinds incl. nan/inf/-0/subnormals, at L and via `view -O npy` (stdout and -o); reader: 10 dtypes x {<, >, |} x versions "
+        "mod 64, x value kinds incl. nan/inf/-0/subnormals, at L and via `view -O npy` (stdout and -o with the path absent / empty / holding a longer file / being the input; with and without a --precision option next to it); reader: 10 dtypes x {<, >, |} x versions "
         "{1.0, 2.0, 3.0} written by numpy with boundary values (int min/max, f4 subnormal/max/inf/nan, u8 2^63..2^64-1), x 7 header spellings "
         "(quotes, spacing, key order, trailing commas) and unaligned / over-padded headers (each first confirmed loadable by numpy); input on stdin in pieces that are no multiple of the element size; rejects: Fortran order (2-D, 3-D, with singleton axes, and the bare flag on 1-D / degenerate shapes), dtypes c16 c8 ? f2 S5 U3 M8 m8 O V4. Non-trivial: every case; "
         "distinct = digest(file bytes).")
@@ -109,13 +109,21 @@ def check_writer(S, p):
             if rep == 0:
                 inp = GS.npy_bytes(shape, vals)
                 for how in ("stdout", "file"):
+                    # --precision is a text option: given next to -O npy (before or after it) it must not change the npy output
+                    rngc = rng_for(seed, "c15", p["name"], "cli", res)
+                    extra = rngc.choice([[], [], ["--precision", "0"], ["--precision", "12"]])
+                    cargs = ["view"] + (extra + ["-O", "npy"] if rngc.random() < 0.5 else ["-O", "npy"] + extra)
                     if how == "stdout":
-                        rr = cli.sfs(["view", "-O", "npy"], stdin=inp)
+                        rr = cli.sfs(cargs, stdin=inp)
                         out = rr.out
                     else:
-                        path = E.tmpfile(b"", ".npy")
-                        rr = cli.sfs(["view", "-O", "npy", "-o", path], stdin=inp)
-                        out = open(path, "rb").read()
+                        # the output path absent, empty, or holding something longer (an earlier, larger spectrum; garbage; the input)
+                        from ..engines import outpath
+                        rr, out, state, _ = outpath.run_to_path(rngc, cargs, inp)
+                        out = out or b""
+                        S.observe("output_path_state", state)
+                        if state == "in-place" and rr.rc != 0:
+                            continue
                     S.count("writer_files")
                     S.count("writer_cli_files")
                     probs = [] if rr.rc == 0 else ["exit %s: %r" % (rr.rc, rr.err[:200])]
